@@ -296,9 +296,15 @@ pub fn faultrun(args: &Args) -> i32 {
                     let want_after = {
                         // what the call would have made durable had it succeeded
                         let mut m = inst.model.clone();
-                        if matches!(op, Op::Flush { .. } | Op::Ingest { .. }) {
-                            m.rotate();
-                            m.flushed();
+                        match op {
+                            // a flush without rotation only writes out what is already sealed (false alarm at
+                            // seed 12 before this distinction: the observed state WAS the after-state)
+                            Op::Flush { rotate: false, .. } => m.flushed(),
+                            Op::Flush { .. } | Op::Ingest { .. } => {
+                                m.rotate();
+                                m.flushed();
+                            }
+                            _ => {}
                         }
                         durable(&m, &keys)
                     };
